@@ -372,6 +372,48 @@ func runC18(r *Report) {
 	// the persisted allow/deny lists: save, load and remove agree, per list type, on the storage keys
 	checkCaseConstantAgreement(r, "R-C18-5", secPkg, "IPType", 3)
 
+	if ex := r.P.Fn("internal/app/server", "extractIP"); ex != nil {
+		checkExtractIPBranches(r, "R-C18-2", ex)
+	}
+	// the periodic clean-up removes only buckets that have been idle for longer than the TTL: every
+	// delete from a bucket map in the limiter's cleanup is under `now.Sub(lastRefill) > ttl`
+	nClean := 0
+	for _, f := range r.P.FuncsIn(secPkg) {
+		if Outermost(f).Name() != "cleanup" || f.Signature.Recv() == nil {
+			continue
+		}
+		if _, tn := recvTypeName(f.Signature.Recv().Type()); tn != "RateLimiter" {
+			continue
+		}
+		Instrs(f, func(in ssa.Instruction) {
+			c, ok := in.(*ssa.Call)
+			if !ok {
+				return
+			}
+			b, ok := c.Call.Value.(*ssa.Builtin)
+			if !ok || b.Name() != "delete" {
+				return
+			}
+			nClean++
+			idle := false
+			for _, ft := range Facts(in.Block()) {
+				bo, isB := ft.Cond.(*ssa.BinOp)
+				if !isB {
+					continue
+				}
+				if sc, _ := CallOfValue(bo.X); sc != nil && CalleeOf(sc).Is("time:Time.Sub") {
+					if (bo.Op == token.GTR && ft.Pol) || (bo.Op == token.GEQ && ft.Pol) || (bo.Op == token.LEQ && !ft.Pol) || (bo.Op == token.LSS && !ft.Pol) {
+						idle = true
+					}
+				}
+			}
+			r.Ob("R-C18-6", in.Pos(), idle, "the limiter's clean-up deletes a bucket only when it has been idle longer than the TTL (deleting a recently used bucket hands the address a fresh full burst)", r.P.FuncName(f), "cleanup-only-idle")
+		})
+	}
+	if nClean < 1 {
+		r.Fail("R-C18-6", 0, "no bucket deletion found in RateLimiter.cleanup", secPkg, "cleanup-only-idle:floor")
+	}
+
 	// ---- R-C18-6 the bucket never holds more than its capacity --------------------------------
 	// every write of TokenBucket.tokens outside the constructor is a consumption (tokens - n), the
 	// capacity itself, or min(..., capacity): an unclamped refill lets an idle address save up an
